@@ -564,7 +564,16 @@ fn run_eval_g<S: PPGEvaluatorStrategy>(
                     }
                     if first_offer {
                         match g.get_job_output(&uid) {
-                            JobOutputResult::Done(_) => {}
+                            JobOutputResult::Done(v) => {
+                                // "current": what the upstream reported in this evaluation, or - if it
+                                // was skipped - what it is recorded to have produced
+                                let expect = cur_rec.get(&uid).or_else(|| w.history.get(&uid));
+                                if let Some(e) = expect {
+                                    if *e != v {
+                                        res.v("C02", "reported-output-of-upstream-is-not-its-current-one", format!("{} offered, get_job_output({}) = {} but its current output is {}", j, uid, v, e));
+                                    }
+                                }
+                            }
                             _ => {
                                 res.v("C02", "no-current-output-for-upstream", format!("{} offered, get_job_output({}) not Done", j, uid));
                             }
